@@ -65,4 +65,10 @@ PROPS = {
             {"name": "TestC11", "quick": 1500, "thorough": 40000},
         ],
     },
+    "C17": {
+        "level": "exploration",
+        "tests": [
+            {"name": "TestC17", "quick": 3000, "thorough": 40000},
+        ],
+    },
 }
